@@ -8,12 +8,22 @@ back is visible); a *deviation* replaces the value of ONE field by another membe
 
 and build(case) constructs the instance. Domains (label -> value), by type hint, first entry = baseline:
     str            tok | empty "" | _type | _bytes | _bytesio | clsname (a registered class name) | nonbmp | b64 "QUJD"
+                   | nfd (decomposed accent) | both:<x> for every x of the decoration alphabet (x tok x)
+                   and, for a str-typed FIELD of the root class (str / Optional[str]), the *decorated* strings
+                       pos:<x1,..,xn>   pos in {pre, suf, mid, both}, x_i in DECOR (8 symbols: sp nl cr tab bom nbsp zwsp nul)
+                       pre: x.. tok | suf: tok x.. | mid: tok x.. tok' | both: x.. tok ..x (mirrored)
+                   for every sequence up to the length DECOR_BOUNDS gives the position (level 1, quick: pre/suf <= 2, mid/both 1
+                   = 160 strings per field; level 2, thorough: all positions <= 2 = 288; level 3, thorough for the classes that
+                   run constructor code of their own (has_ctor_code, discovered reflectively): pre/suf/mid <= 3 = 1824).
+                   These are the strings that normalising constructors (__post_init__: strip & co.) act on; from_json
+                   constructs a second time, so a normalisation that is not idempotent shows as json-equal / content-equal.
+                   Decorated strings deviate alone (never in the pairs of the thorough tier, except both:<x>).
     int            7 | 0 | -1 | big (2**63)          bool  True | False         float  1.5 | 0.0 | -2.25 | 1e300
     bytes          3 bytes | empty | 4 bytes         BytesIO  the same + "pos" (4 bytes, stream position 2) + "end" (position at end)
     Optional[T]/T|None   dom(T) + none
     List[T]        [b] | [] | [b,b'] | [d] for every deviation d of T
     Dict[str,T]    {tok: b} | {} | {k: v} for k in marker keys x v in dom(T) | {tok: d} for deviations d of T | {tok: b, _type: b}
-    Any            tok | none, int, float, bool, marker strings (reachable from spreadsheet cells)  and, flagged UNREACHABLE:
+    Any            tok | none, int, float, bool, marker strings, both:<x> (reachable from spreadsheet cells)  and, flagged UNREACHABLE:
                    marker dicts, plain dict, nested list, bytes, datetime, date, time, timedelta, Decimal
                    (marker KEYS of a Dict[str, T] field are flagged unreachable too unless T is Any: only XlsSheet rows are
                    keyed by document content, every other dict field has keys that are literals of the extractor code)
@@ -33,10 +43,78 @@ import types
 import typing
 
 from verif.gen.tokens import Tokens
-from verif.props.c05_corpus import CLASS_NAME
+from verif.props.c05_corpus import CLASS_NAME, DECOR
 
 MARKER_KEYS = ["_type", "_bytes", "_bytesio", CLASS_NAME, ""]
 MAX_DEPTH = 4
+
+# decoration alphabet: characters that text normalisers treat specially. sp nl cr tab nbsp are white space for str.strip(),
+# bom zwsp nul are not (but are what "clean up" code tends to remove as well)
+DECOR_CHAR = dict(DECOR)
+DECOR_POS = ["pre", "suf", "mid", "both"]
+AFFLEN_MAX = 3
+
+
+def decor_text(names):
+    return "".join(DECOR_CHAR[n] for n in names)
+
+
+def decorate(pos, names, tok, tok2=None):
+    """the decorated string of a position and a sequence of DECOR names"""
+    s = decor_text(names)
+    if pos == "pre":
+        return s + tok
+    if pos == "suf":
+        return tok + s
+    if pos == "mid":
+        return tok + s + (tok2 if tok2 is not None else tok)
+    if pos == "both":
+        return s + tok + s[::-1]
+    raise KeyError(pos)
+
+
+# longest sequence per position for the three decoration levels: 1 = quick; 2 = thorough; 3 = thorough, classes that run
+# code of their own when constructed (has_ctor_code: the only place where from_json can treat one class's strings differently)
+DECOR_BOUNDS = {1: {"pre": 2, "suf": 2, "mid": 1, "both": 1}, 2: {"pre": 2, "suf": 2, "mid": 2, "both": 2},
+                3: {"pre": 3, "suf": 3, "mid": 3, "both": 2}}
+LEVEL_MAX = 3
+
+
+def has_ctor_code(cls) -> bool:
+    """does constructing an instance run code other than the generated field assignments?"""
+    return hasattr(cls, "__post_init__") or cls.__setattr__ is not object.__setattr__ or \
+        any(not f.init for f in dataclasses.fields(cls))
+
+
+def decor_sequences(level):
+    """[(pos, names)] in the canonical order: shorter sequences first, then position, then sequence (alphabet order);
+    the list of a level is a subsequence of the list of the next level."""
+    import itertools
+    out = []
+    names = [n for n, _ in DECOR]
+    bounds = DECOR_BOUNDS[max(1, min(level, LEVEL_MAX))]
+    for ln in range(1, AFFLEN_MAX + 1):
+        for pos in DECOR_POS:
+            if ln > bounds[pos]:
+                continue
+            for seq in itertools.product(names, repeat=ln):
+                out.append((pos, list(seq)))
+    return out
+
+
+def decor_label(pos, names):
+    return "%s:%s" % (pos, ",".join(names))
+
+
+def parse_decor_label(label):
+    """-> (pos, names) or None"""
+    if not isinstance(label, str) or ":" not in label:
+        return None
+    pos, _, rest = label.partition(":")
+    names = rest.split(",")
+    if pos not in DECOR_POS or not names or any(n not in DECOR_CHAR for n in names) or len(names) > AFFLEN_MAX:
+        return None
+    return pos, names
 
 
 class Entry:
@@ -46,6 +124,15 @@ class Entry:
         self.label = label
         self.make = make
         self.unreach = unreach
+
+
+PAIR_DECOR = ("sp", "bom")    # the decorations that take part in two-field deviations: one white-space, one other
+_LITE_ALONE = {decor_label("both", [n]) for n, _ in DECOR if n not in PAIR_DECOR}
+
+
+def _lite(tok):
+    """both:<x> for every x of the decoration alphabet (the decorated strings that every str position gets)"""
+    return [Entry(decor_label("both", [n]), (lambda n=n: decorate("both", [n], tok))) for n, _ in DECOR]
 
 
 def registry():
@@ -65,6 +152,8 @@ class Domains:
         self.tok = [tk.new("B") for _ in range(8)]
         self.key = tk.new("K")
         self._hints = {}
+        self._fdom = {}
+        self._devc = {}
 
     def hints(self, cls):
         h = self._hints.get(cls)
@@ -83,7 +172,8 @@ class Domains:
         if tp is str:
             return [Entry("tok", lambda: tok), Entry("empty", lambda: ""), Entry("_type", lambda: "_type"),
                     Entry("_bytes", lambda: "_bytes"), Entry("_bytesio", lambda: "_bytesio"), Entry("clsname", lambda: CLASS_NAME),
-                    Entry("nonbmp", lambda: "\U0001F600éא"), Entry("b64", lambda: "QUJD")]
+                    Entry("nonbmp", lambda: "\U0001F600éא"), Entry("b64", lambda: "QUJD"),
+                    Entry("nfd", lambda: tok + "e\u0301")] + _lite(tok)
         if tp is bool:
             return [Entry("True", lambda: True), Entry("False", lambda: False)]
         if tp is int:
@@ -160,6 +250,7 @@ class Domains:
         return [E("tok", lambda: tok), E("b64", lambda: "QUJD"), E("clsname", lambda: CLASS_NAME), E("none", lambda: None),
                 E("int", lambda: 42), E("float", lambda: 2.5), E("bool", lambda: True),
                 E("empty", lambda: ""), E("_type", lambda: "_type"), E("_bytes", lambda: "_bytes"), E("nonbmp", lambda: "\U0001F600é"),
+                ] + _lite(tok) + [
                 E("{_type:cls}", lambda: {"_type": CLASS_NAME}, True), E("{_type:tok}", lambda: {"_type": tok}, True),
                 E("{_bytes:b64}", lambda: {"_bytes": "QUJD"}, True), E("{_bytesio:b64}", lambda: {"_bytesio": "QUJD"}, True),
                 E("{_bytes:tok}", lambda: {"_bytes": tok}, True), E("{K:1}", lambda: {tok: 1}, True),
@@ -185,8 +276,14 @@ class Domains:
         return [f for f in dataclasses.fields(cls) if f.init]
 
     def field_domain(self, cls, f, depth=0):
-        idx = [x.name for x in dataclasses.fields(cls)].index(f.name)
-        return self.dom(self.hints(cls)[f.name], depth, idx)
+        # entries are factories (fresh value per make()), so the domain of a field can be shared between instances
+        key = (cls, f.name, depth)
+        d = self._fdom.get(key)
+        if d is None:
+            idx = [x.name for x in dataclasses.fields(cls)].index(f.name)
+            d = self.dom(self.hints(cls)[f.name], depth, idx)
+            self._fdom[key] = d
+        return d
 
     def baseline(self, cls, depth=0):
         kw = {}
@@ -203,6 +300,15 @@ class Domains:
                 kw[f.name] = self.field_domain(cls, f, depth)[0].make()
         return cls(**kw)
 
+    def admits_str(self, cls, f) -> bool:
+        """is the field a str-typed position of the root class (str, Optional[str], a union holding str)?"""
+        tp = self.hints(cls)[f.name]
+        if tp is str:
+            return True
+        if typing.get_origin(tp) in (typing.Union, types.UnionType):
+            return str in typing.get_args(tp)
+        return False
+
     def build(self, case):
         """-> (instance, unreachable?)"""
         cls = self.reg[case["cls"]]
@@ -214,7 +320,12 @@ class Domains:
             if f.name in dev:
                 e = next((x for x in d[1:] if x.label == dev[f.name]), None)
                 if e is None:
-                    raise KeyError("no deviation %r for %s.%s" % (dev[f.name], cls.__name__, f.name))
+                    pn = parse_decor_label(dev[f.name]) if self.admits_str(cls, f) else None
+                    if pn is None:
+                        raise KeyError("no deviation %r for %s.%s" % (dev[f.name], cls.__name__, f.name))
+                    idx = [x.name for x in dataclasses.fields(cls)].index(f.name)
+                    tok = self.tok[idx % len(self.tok)]
+                    e = Entry(dev[f.name], (lambda pn=pn, tok=tok: decorate(pn[0], pn[1], tok, self.tok[(idx + 1) % len(self.tok)])))
             else:
                 e = d[0]
             unreach = unreach or e.unreach
@@ -224,36 +335,60 @@ class Domains:
             raise KeyError("unknown fields %r of %s" % (missing, cls.__name__))
         return cls(**kw), unreach
 
-    def deviations(self, cls):
-        """[(field name, label, unreach)] of all single-field deviations, in field order."""
+    def _devs(self, cls, level=LEVEL_MAX):
+        """[(field name, label, unreach, wide)] of all single-field deviations, in field order; per field the core domain
+        first, then the decorated strings (wide: they deviate alone) in the order of decor_sequences."""
+        ck = (cls, max(1, min(level, LEVEL_MAX)))
+        if ck in self._devc:
+            return self._devc[ck]
         out = []
+        seqs = None
         for f in self.init_fields(cls):
-            for e in self.field_domain(cls, f)[1:]:
-                out.append((f.name, e.label, e.unreach))
+            core = self.field_domain(cls, f)[1:]
+            have = set()
+            for e in core:
+                out.append((f.name, e.label, e.unreach, e.label in _LITE_ALONE))
+                have.add(e.label)
+            if self.admits_str(cls, f):
+                if seqs is None:
+                    seqs = decor_sequences(level)
+                for pos, names in seqs:
+                    lb = decor_label(pos, names)
+                    if lb not in have:
+                        out.append((f.name, lb, False, True))
+        self._devc = {k: v for k, v in self._devc.items() if k[0] is cls}     # one class at a time (the lists are long)
+        self._devc[ck] = out
         return out
 
-    def cases(self, cls, max_dev):
+    def deviations(self, cls):
+        """[(field name, label, unreach)] of all single-field deviations (largest decoration length), in field order."""
+        return [(fn, lb, un) for fn, lb, un, _ in self._devs(cls)]
+
+    def cases(self, cls, max_dev, level=1):
         name = cls.__name__
         yield {"cls": name, "dev": []}
-        devs = self.deviations(cls)
+        devs = self._devs(cls, level)
         if max_dev >= 1:
-            for fn, lb, _ in devs:
+            for fn, lb, _, _ in devs:
                 yield {"cls": name, "dev": [[fn, lb]]}
         if max_dev >= 2:
+            devs = [d for d in devs if not d[3]]
             for i in range(len(devs)):
                 for j in range(i + 1, len(devs)):
                     if devs[i][0] != devs[j][0]:
                         yield {"cls": name, "dev": [[devs[i][0], devs[i][1]], [devs[j][0], devs[j][1]]]}
 
-    def count(self, cls, max_dev):
-        devs = self.deviations(cls)
+    def count(self, cls, max_dev, level=1):
+        devs = self._devs(cls, level)
         n = 1
         if max_dev >= 1:
             n += len(devs)
         if max_dev >= 2:
             per = {}
-            for fn, _, _ in devs:
-                per[fn] = per.get(fn, 0) + 1
-            tot = len(devs)
+            tot = 0
+            for fn, _, _, wide in devs:
+                if not wide:
+                    per[fn] = per.get(fn, 0) + 1
+                    tot += 1
             n += (tot * tot - sum(v * v for v in per.values())) // 2
         return n
